@@ -3,12 +3,22 @@
    normalisers that accept it.
 
    Code modelled (all under /repo/openfilter/filter_runtime):
-     utils.py:133      split_commas_maybe                      -> SplitCommasMaybe
-     filter.py:707-730 Filter.re_valid_option_name, parse_options -> OptionLikeD, ParseOptionsD
-     filter.py:733-761 Filter.parse_topics                     -> ParseTopics
-     filter.py:1019    Filter.normalize_config                 -> NormFilterField
-     filters/video_in.py:682, video_out.py:349, image_in.py:218, image_out.py:236 (one shape)  -> ParseEntry, NormItem
-     filters/util.py:95 (xforms), recorder.py:68 (outputs), mqtt_out.py:202, rest.py:251, webvis.py:100
+     utils.py:133       split_commas_maybe                          -> SplitCommasMaybe
+     filter.py:707-730  Filter.re_valid_option_name, parse_options  -> OptionLikeD, ParseOptionsD, ParseOneOpt
+     filter.py:733-761  Filter.parse_topics                         -> ParseTopics
+     filter.py:1019     Filter.normalize_config, filter.py:990 init -> ParseItem("Filter"), CfgInit
+     filters/video_in.py:682, video_out.py:349, image_in.py:218, image_out.py:236 (one shape) -> ParseEntry, Defaults
+     filters/util.py:95 (xforms), recorder.py:68 (outputs)          -> ParseItem("Util"), ParseItem("Recorder")
+     filters/webvis.py:100, rest.py:251, mqtt_out.py:202            -> ParseWebvis, ParseRestSource/NormRest,
+                                                                       ParseMqttOutput/ParseMqttMapping/NormMq
+
+   Four case-state spaces, selected by the constant Mode (one TLC state = one case; the laws are invariants; Next only
+   extends a case by one mapping / option / the filler entries, so that the workers share the enumeration):
+     "topics"   x = address + list of topic mappings, every text form, white space around ';' '>' and at the edges
+     "options"  x = address (plain, '!' in the password) + list of options, alone and followed by a topic
+     "config"   per class (Filter, Util, Recorder, VideoIn, VideoOut, ImageIn, ImageOut): 1..MaxEntries entries, the
+                entry under variation at every position among filler entries; forms text / list of texts / structured
+     "proto"    Webvis, REST, MQTTOut: the filters with their own address grammar
 
    TEXT.  TLA+ strings are atomic, so a text is a SEQUENCE OF TOKENS and the harness renders it by concatenation.
    A token is either one of the separator characters of the grammar ( ";" ">" "!" "=" "," and the local ones "/"
@@ -34,11 +44,12 @@
 EXTENDS Integers, Sequences, FiniteSets, TLC, Json, IOUtils, SequencesExt, FiniteSetsExt
 
 CONSTANTS Defects,      \* subset of AllDefects
-          Mode,         \* "topics" | "options" | "entry" | "config"
-          MaxMaps,      \* topic mappings per entry            (mode topics)
-          MaxOpts,      \* options per entry                   (modes options, entry, config)
-          MaxEntries,   \* entries (sources/outputs) per configuration  (mode config)
-          WsLevel       \* 1: named white-space classes, 2: every combination of the relevant positions
+          Mode,         \* "topics" | "options" | "config" | "proto"
+          MaxMaps,      \* topic mappings per entry                     (mode topics; pool of class Filter in config)
+          MaxOpts,      \* options per entry                            (modes options, config)
+          MaxEntries,   \* entries (sources/outputs) per configuration   (mode config)
+          WsLevel       \* 1: the named white-space classes; 2: every combination of the relevant positions, all four
+                        \*    named classes and every order of the filler entries in mode config
 
 AllDefects == {"C11_opt_ws_before_eq"}
 ASSUME Defects \subseteq AllDefects
@@ -75,13 +86,13 @@ Sp(b)       == IF b THEN <<WS>> ELSE <<>>
 Sep(tok, b) == Sp(b) \o <<tok>> \o Sp(b)
 
 (* every word used below that is a complete identifier  [a-zA-Z_]\w*  (harness: table == regex on all words) *)
-Ident == {"main", "a", "b_2", "c", "hello", "true", "null", "x", "sync", "bgr", "loop", "maxfps", "maxsize", "resize",
-          "region", "expiration", "fps", "segtime", "params", "g", "recursive", "pattern", "format", "quality",
-          "compression", "append", "qos", "retain", "png", "jpg", "cam2", "other", "archive", "topic", "topic2",
-          "image", "data", "sub", "more", "frames", "base_topic", "host", "flipx", "fmtgray", "rotcw", "maxsize",
-          "minsize", "box", "lin", "get", "put", "post", "delete", "GET", "PUT", "one", "two", "endpoint", "mytopic",
-          "scale", "vf", "crf", "t2", "localhost", "text", "t", "b", "e", "p", "pa", "pw", "llo", "he",
-          "flipy", "rotccw", "GET", "POST", "topic2_frames", "DELETE", "other", "rest", "fill", "frames"}
+Ident == {"main", "a", "b", "b_2", "c", "e", "g", "p", "t", "x", "he", "llo", "pa", "pw", "t2", "vf", "crf", "hello", "true",
+          "null", "text", "scale", "sync", "bgr", "loop", "maxfps", "maxsize", "resize", "region", "expiration", "fps",
+          "segtime", "params", "recursive", "pattern", "format", "quality", "compression", "append", "qos", "retain",
+          "png", "jpg", "cam2", "other", "archive", "frames", "topic", "topic2", "topic2_frames", "image", "data", "sub",
+          "more", "base_topic", "host", "localhost", "flipx", "flipy", "fmtgray", "rotcw", "rotccw", "minsize", "box",
+          "lin", "get", "put", "post", "delete", "GET", "PUT", "POST", "DELETE", "one", "two", "endpoint", "mytopic",
+          "rest", "fill"}
 
 (* ====================================== utils.py:133 split_commas_maybe ======================================== *)
 (* ([s.strip() for s in v.split(',')] if v.strip() else [])  - for a str; anything else is returned as it is *)
